@@ -1,6 +1,7 @@
 package main
 
 import (
+	"net/url"
 	"fmt"
 	"reflect"
 	"sort"
@@ -518,6 +519,33 @@ func (c *c12) partB(P string) {
 			}
 			if o, okS, p := callM(pv, "Serialize"); !okS || p != nil || !reflect.DeepEqual(o[0].Interface(), interface{}(u.String())) {
 				c.viol("iri-setter", "Serialize", cs, "IRI not serialised as its string")
+			}
+		}
+	}
+	// a value stored as an IRI is written as its string and must be read back
+	// as an IRI - also an IRI without an authority part (urn:, mailto:, tag:,
+	// acct:, did:), which is the usual form of many identifiers
+	for _, us := range []string{"urn:uuid:6ba7b810-9dad-11d1-80b4-00c04fd430c8", "mailto:someone@example.com", "tag:example.com,2026:thing", "acct:user@example.com", "did:example:123456789abcdefghi", "https://example.com/a%20b?q=1#frag"} {
+		if inList(adL, "XMLSchemaAnyURI") && (inList(adL, "XMLSchemaString") || inList(adL, "RFCBcp47") || inList(adL, "RFCRfc2045") || inList(adL, "RFCRfc5988")) {
+			// the declared range itself holds both a text kind and xsd:anyURI
+			// (units): which of the two declared kinds reads the string is
+			// not settled by the statement
+			c.r.Count("partB.skipped_text_and_anyuri_in_range", 1)
+			break
+		}
+		cs := c12Case{Part: "B.iri.stable", Type: host, Prop: P, Kind: "IRI", Value: us}
+		elem, _, ok := c.elemFor(P, host, us, &cs)
+		if !ok {
+			continue
+		}
+		fl := trueFlags(elem)
+		if len(fl) == 0 || !(inList(fl, "IRI") || inList(fl, "XMLSchemaAnyURI")) {
+			c.viol("iri-not-read-back-as-iri", "Is*", cs, fmt.Sprintf("the string an IRI is serialised as is read back with flags=%v", fl))
+			continue
+		}
+		if u, okG := getKind(elem, "IRI"); okG {
+			if uu, isU := u.Interface().(*url.URL); isU && uu != nil && uu.String() != us {
+				c.viol("wrong-value", "GetIRI", cs, "got "+uu.String())
 			}
 		}
 	}
